@@ -33,7 +33,7 @@ func (vm *Manager) VerifVisitors() map[string]Visitor {
 	return res
 }
 
-// VerifKeepOnce runs the body of one keepVisitorsRunning ticker round.
+// VerifCfgOf returns the configuration stored for a name.
 func (vm *Manager) VerifCfgOf(name string) (any, bool) {
 	vm.mu.RLock()
 	defer vm.mu.RUnlock()
